@@ -11,7 +11,10 @@ use std::path::{Path, PathBuf};
 use std::process::{Command, Stdio};
 use std::time::{Duration, Instant};
 
-pub const VERIF: &str = "/verif";
+/// root of the verification tree: /verif, or the snapshot a background run works in (VERIF_ROOT)
+pub fn verif_root() -> String {
+    std::env::var("VERIF_ROOT").ok().filter(|s| !s.is_empty()).unwrap_or_else(|| "/verif".to_string())
+}
 
 #[derive(Clone, Copy, Debug, PartialEq, Eq)]
 pub enum Tier {
@@ -92,15 +95,17 @@ pub struct FuzzSpec {
     pub engine_prefix: Vec<u8>,
 }
 
-pub const FUZZ_DIR: &str = "/verif/harness/fuzz/target/x86_64-unknown-linux-gnu/release";
+pub fn fuzz_dir() -> String {
+    format!("{}/harness/fuzz/target/x86_64-unknown-linux-gnu/release", verif_root())
+}
 
 /// run one saved input through the fuzz binary; Some(message) if it fails there
 pub fn fuzz_replay(target: &str, prop: &str, input: &[u8]) -> Result<Option<String>, String> {
-    let exe = format!("{FUZZ_DIR}/{target}");
+    let exe = format!("{}/{target}", fuzz_dir());
     if !Path::new(&exe).exists() {
         return Err(format!("fuzz binary {exe} is missing (run setup.sh or ./run {prop} thorough)"));
     }
-    let tmp = format!("{VERIF}/work/fzreplay_{}_{}", std::process::id(), fnv(input));
+    let tmp = format!("{}/work/fzreplay_{}_{}", verif_root(), std::process::id(), fnv(input));
     std::fs::write(&tmp, input).map_err(|e| e.to_string())?;
     let out = Command::new(&exe).arg(&tmp).env("VERIF_PROP", prop).env("ASAN_OPTIONS", "detect_leaks=0").stdout(Stdio::null()).stderr(Stdio::piped()).output();
     let _ = std::fs::remove_file(&tmp);
@@ -125,13 +130,13 @@ struct FuzzOutcome {
 fn fuzz_campaign(eng: &dyn Engine, spec: &FuzzSpec, seed: u64, deadline: Instant) -> FuzzOutcome {
     let prop = eng.prop();
     let mut out = FuzzOutcome { execs: 0, features: 0, corpus: 0, crashes: vec![], notes: vec![], seeds: 0 };
-    let exe = format!("{FUZZ_DIR}/{}", spec.target);
+    let exe = format!("{}/{}", fuzz_dir(), spec.target);
     if !Path::new(&exe).exists() {
         out.notes.push(format!("fuzz binary {exe} is missing"));
         return out;
     }
     let nproc = 8u32;
-    let root = format!("{VERIF}/work/fz_{prop}");
+    let root = format!("{}/work/fz_{prop}", verif_root());
     let _ = std::fs::remove_dir_all(&root);
     // seed corpus: cases from the engine's own generator (empty corpus ramps up too slowly)
     {
@@ -277,7 +282,7 @@ pub struct Known {
 
 pub fn load_known() -> Vec<Known> {
     let mut out = vec![];
-    if let Ok(s) = std::fs::read_to_string(format!("{VERIF}/known_findings.txt")) {
+    if let Ok(s) = std::fs::read_to_string(format!("{}/known_findings.txt", verif_root())) {
         for line in s.lines() {
             let line = line.trim();
             if let Some(rest) = line.strip_prefix("known:") {
@@ -331,7 +336,7 @@ pub fn seed_from_env() -> u64 {
 }
 
 fn work_dir() -> PathBuf {
-    let p = PathBuf::from(format!("{VERIF}/work"));
+    let p = PathBuf::from(format!("{}/work", verif_root()));
     let _ = std::fs::create_dir_all(&p);
     p
 }
@@ -489,11 +494,17 @@ pub fn worker_main(eng: &dyn Engine, tier: Tier, seed: u64, idx: u32, nworkers: 
 // parent
 
 fn write_replay(prop: &str, tag: &str, body: &Value) -> String {
-    let dir = format!("{VERIF}/replays");
+    let dir = format!("{}/replays", verif_root());
     let _ = std::fs::create_dir_all(&dir);
     let path = format!("{dir}/{prop}-{tag}.json");
     let _ = std::fs::write(&path, serde_json::to_string_pretty(body).unwrap());
     path
+}
+
+/// run a replay child with a watchdog; None = it had to be stopped (hang): inconclusive, never a violation
+fn status_with_timeout(cmd: &mut Command, secs: u64) -> Option<std::process::ExitStatus> {
+    let mut child = cmd.spawn().ok()?;
+    wait_with_timeout(&mut child, Instant::now() + Duration::from_secs(secs))
 }
 
 fn wait_with_timeout(child: &mut std::process::Child, deadline: Instant) -> Option<std::process::ExitStatus> {
@@ -532,16 +543,16 @@ pub fn check_main(eng: &dyn Engine, tier: Tier) -> i32 {
 
     // 1. regression tier: committed replay files of earlier confirmed failures
     let mut regress_run = 0;
-    let rdir = format!("{VERIF}/regress/{prop}");
+    let rdir = format!("{}/regress/{prop}", verif_root());
     if let Ok(rd) = std::fs::read_dir(&rdir) {
         let mut files: Vec<PathBuf> = rd.filter_map(|e| e.ok()).map(|e| e.path()).filter(|p| p.extension().map_or(false, |x| x == "json")).collect();
         files.sort();
         for f in files {
             regress_run += 1;
-            let out = Command::new(&exe).args(["replay", f.to_str().unwrap()]).stdout(Stdio::piped()).stderr(Stdio::null()).output();
+            let out = status_with_timeout(Command::new(&exe).args(["replay", f.to_str().unwrap()]).stdout(Stdio::null()).stderr(Stdio::null()), 300).ok_or_else(|| "had to be stopped after 300 s".to_string());
             match out {
                 Ok(o) => {
-                    let code = o.status.code();
+                    let code = o.code();
                     if code == Some(1) {
                         violations.push((format!("regression case {} fails again", f.display()), f.display().to_string()));
                     } else if code != Some(0) {
@@ -608,8 +619,11 @@ pub fn check_main(eng: &dyn Engine, tier: Tier) -> i32 {
                     if let Ok(item) = serde_json::from_str::<Value>(&text) {
                         let body = json!({"property": prop, "engine": "sweep", "seed": seed, "build": if idx % 2 == 1 && dbg_exe.is_some() { "dbg" } else { "release" }, "item": item, "failure": format!("worker process died ({st}) while executing this item of the systematic part")});
                         let path = write_replay(prop, &format!("sweepcrash-{idx}"), &body);
-                        let o = Command::new(&exe).args(["replay", &path]).stdout(Stdio::null()).stderr(Stdio::null()).status();
-                        if let Ok(o) = o {
+                        let o = status_with_timeout(Command::new(&exe).args(["replay", &path]).stdout(Stdio::null()).stderr(Stdio::null()), 120);
+                        if o.is_none() {
+                            inconclusive.push(format!("replaying the item worker {idx} died on had to be stopped after 120 s"));
+                        }
+                        if let Some(o) = o {
                             if o.code().is_none() || o.code() == Some(1) {
                                 reproduced = true;
                                 if eng.crash_is_violation() || o.code() == Some(1) {
@@ -629,8 +643,11 @@ pub fn check_main(eng: &dyn Engine, tier: Tier) -> i32 {
                             let bytes = &data[4..4 + n];
                             let body = json!({"property": prop, "engine": "proptest", "seed": seed, "build": if idx % 2 == 1 && dbg_exe.is_some() { "dbg" } else { "release" }, "bytes_hex": hex(bytes), "decoded": eng.describe(bytes), "failure": format!("worker process died ({st})")});
                             let path = write_replay(prop, &format!("crash-{idx}"), &body);
-                            let o = Command::new(&exe).args(["replay", &path]).stdout(Stdio::null()).stderr(Stdio::null()).status();
-                            if let Ok(o) = o {
+                            let o = status_with_timeout(Command::new(&exe).args(["replay", &path]).stdout(Stdio::null()).stderr(Stdio::null()), 120);
+                            if o.is_none() {
+                                inconclusive.push(format!("replaying the case worker {idx} died on had to be stopped after 120 s"));
+                            }
+                            if let Some(o) = o {
                                 if o.code().is_none() || o.code() == Some(1) {
                                     reproduced = true;
                                     if eng.crash_is_violation() || o.code() == Some(1) {
@@ -829,8 +846,8 @@ pub fn check_main(eng: &dyn Engine, tier: Tier) -> i32 {
         "wall_s": wall,
         "violations": violations.len(),
     });
-    let _ = std::fs::create_dir_all(format!("{VERIF}/evidence"));
-    let _ = std::fs::write(format!("{VERIF}/evidence/{prop}.json"), serde_json::to_string_pretty(&ev).unwrap());
+    let _ = std::fs::create_dir_all(format!("{}/evidence", verif_root()));
+    let _ = std::fs::write(format!("{}/evidence/{prop}.json", verif_root()), serde_json::to_string_pretty(&ev).unwrap());
 
     for k in my_known.iter() {
         let n = known_seen.get(&k.sig).cloned().unwrap_or(0);
